@@ -243,9 +243,8 @@ func (x *Exec) localByName(env *SpecEnv, fr *Frame, name string) (specVal, bool)
 		for i, fv := range fr.fn.FreeVars {
 			if fv.Name() == name {
 				_ = i
-				p := x.val(fr, st, fv)
 				et := deref(fv.Type())
-				return specVal{term: x.load(st, et, p), typ: et}, true
+				return specVal{term: x.loadFrom(fr, st, fv), typ: et}, true
 			}
 		}
 		return specVal{}, false
